@@ -31,6 +31,49 @@ pub open spec fn de_wf<'a>(e: DeEvent<'a>) -> bool {
     match e { DeEvent::Start(s) => s.name_len <= s.buf@.len(), _ => true }
 }
 pub open spec fn all_wf<'a>(s: Seq<DeEvent<'a>>) -> bool { forall|i: int| 0 <= i < s.len() ==> de_wf(#[trigger] s[i]) }
+/// Start(name) / End(name) classification of an event with respect to `name`
+pub open spec fn is_start_of<'a>(e: DeEvent<'a>, name: Seq<u8>) -> bool {
+    e matches DeEvent::Start(s) && s.buf@.subrange(0, s.name_len as int) == name
+}
+pub open spec fn is_end_of<'a>(e: DeEvent<'a>, name: Seq<u8>) -> bool {
+    e matches DeEvent::End(x) && x.name@ == name
+}
+pub open spec fn shift(o: Option<int>, n: int) -> Option<int> { match o { Some(k) => Some(k + n), None => None } }
+/// index of the End event that closes the element `name` when `d` more elements of that name are open:
+/// nested elements of the same name are counted (C12/C20: skipping a whole element)
+pub open spec fn close_idx<'a>(s: Seq<DeEvent<'a>>, name: Seq<u8>, d: nat) -> Option<int> decreases s.len() {
+    if s.len() == 0 { None }
+    else if is_start_of(s[0], name) { shift(close_idx(s.subrange(1, s.len() as int), name, d + 1), 1) }
+    else if is_end_of(s[0], name) { if d == 0 { Some(0int) } else { shift(close_idx(s.subrange(1, s.len() as int), name, (d - 1) as nat), 1) } }
+    else { shift(close_idx(s.subrange(1, s.len() as int), name, d), 1) }
+}
+/// closing e+1+d levels = closing e+1 levels... stated for one level: first the element at depth e, then d more
+pub proof fn lemma_close_split<'a>(s: Seq<DeEvent<'a>>, name: Seq<u8>, e: nat, d: nat)
+    ensures close_idx(s, name, e + 1 + d) == (match close_idx(s, name, e) {
+        Some(k) => shift(close_idx(s.subrange(k + 1, s.len() as int), name, d), k + 1),
+        None => None,
+    }),
+    close_idx(s, name, e) matches Some(k) ==> 0 <= k < s.len(),
+    decreases s.len()
+{
+    if s.len() > 0 {
+        let s1 = s.subrange(1, s.len() as int);
+        if is_start_of(s[0], name) {
+            lemma_close_split(s1, name, e + 1, d);
+            if let Some(k1) = close_idx(s1, name, e + 1) { assert(s1.subrange(k1 + 1, s1.len() as int) =~= s.subrange(k1 + 2, s.len() as int)); }
+        } else if is_end_of(s[0], name) {
+            if e == 0 {
+                assert(s.subrange(1, s.len() as int) =~= s1);
+            } else {
+                lemma_close_split(s1, name, (e - 1) as nat, d);
+                if let Some(k1) = close_idx(s1, name, (e - 1) as nat) { assert(s1.subrange(k1 + 1, s1.len() as int) =~= s.subrange(k1 + 2, s.len() as int)); }
+            }
+        } else {
+            lemma_close_split(s1, name, e, d);
+            if let Some(k1) = close_idx(s1, name, e) { assert(s1.subrange(k1 + 1, s1.len() as int) =~= s.subrange(k1 + 2, s.len() as int)); }
+        }
+    }
+}
 pub trait XmlRead<'de> {}
 pub trait EntityResolver {}
 /// model of XmlReader (assumed): `future` is the sequence of events it will still deliver
@@ -42,6 +85,14 @@ impl<'de, R: XmlRead<'de>, E: EntityResolver> XmlReader<'de, R, E> {
             Ok(e) => old(self).future@.len() > 0 && e == old(self).future@[0] && final(self).future@ == old(self).future@.subrange(1, old(self).future@.len() as int),
             Err(_) => final(self).future@ == old(self).future@,
         }
+    { unimplemented!() }
+    /// model of XmlReader::read_to_end (assumed; for the plain reader this is C12): consumes the events up to and
+    /// including the End that closes `name`, counting nested elements of the same name
+    #[verifier::external_body]
+    pub fn read_to_end(&mut self, name: QName) -> (r: Result<(), DeError>)
+        ensures all_wf(old(self).future@) ==> all_wf(final(self).future@),
+            r is Ok ==> (close_idx(old(self).future@, name.0@, 0) matches Some(k)
+                && final(self).future@ == old(self).future@.subrange(k + 1, old(self).future@.len() as int)),
     { unimplemented!() }
 }
 
@@ -143,6 +194,119 @@ where
             assert(self.pending() =~= old(self).held().subrange(checkpoint as int, old(self).held().len() as int) + old(self).pending());
             assert(self.held() =~= old(self).held().subrange(0, checkpoint as int));
         }
+    }
+//@end
+
+//@extract de::Deserializer::read_to_end | src/de/mod.rs :: impl<'de, R, E> Deserializer<'de, R, E> where R: XmlRead<'de>, E: EntityResolver, :: fn read_to_end | serves=C20 features=serialize,overlapped-lists
+    #[verifier::loop_isolation(false)]
+    fn read_to_end(&mut self, name: QName) -> (r: Result<(), DeError>)
+        requires old(self).qwf()
+        ensures final(self).qwf(), final(self).held() == old(self).held(), final(self).limit == old(self).limit,
+            // discards exactly the rest of the element `name`: everything up to and including the End that
+            // closes it (replayed events first), counting nested elements of the same name
+            r is Ok ==> (close_idx(old(self).pending(), name.0@, 0) matches Some(k)
+                && final(self).pending() == old(self).pending().subrange(k + 1, old(self).pending().len() as int)),
+    {
+        let ghost p0 = self.pending();
+        let ghost r0 = self.read@;
+        let ghost f0 = self.reader.future@;
+        let ghost nm = name.0@;
+        let ghost mut c: int = 0;
+        proof { assert(p0.subrange(0, p0.len() as int) =~= p0); }
+        let mut depth = 0;
+        loop
+            invariant
+                depth >= 0, 0 <= c <= r0.len(), self.qwf(),
+                self.read@ == r0.subrange(c, r0.len() as int), self.reader.future@ == f0,
+                self.held() == old(self).held(), self.limit == old(self).limit,
+                close_idx(p0, nm, 0) == shift(close_idx(p0.subrange(c, p0.len() as int), nm, depth as nat), c),
+            decreases self.read@.len()
+        {
+            // A-depth (stated assumption): fewer than 2^31 - 1 nested same-name elements
+            assume(depth < 0x7fff_ffff);
+            let ghost cur = p0.subrange(c, p0.len() as int);
+            proof {
+                if c < r0.len() {
+                    assert(cur[0] == r0[c]);
+                    assert(cur.subrange(1, cur.len() as int) =~= p0.subrange(c + 1, p0.len() as int));
+                    assert(self.read@[0] == r0[c]);
+                }
+            }
+            match self.read.pop_front() {
+                Some(DeEvent::Start(e)) if e.name() == name => {
+                    proof {
+                        assert(is_start_of(cur[0], nm));
+                        assert(self.read@ =~= r0.subrange(c + 1, r0.len() as int));
+                        c = c + 1;
+                    }
+                    depth += 1;
+                }
+                Some(DeEvent::End(e)) if e.name() == name => {
+                    proof {
+                        assert(is_end_of(cur[0], nm) && !is_start_of(cur[0], nm));
+                        assert(self.read@ =~= r0.subrange(c + 1, r0.len() as int));
+                        assert(self.pending() =~= p0.subrange(c + 1, p0.len() as int));
+                        c = c + 1;
+                    }
+                    if depth == 0 {
+                        break;
+                    }
+                    depth -= 1;
+                }
+
+                // Drop all other skipped events
+                Some(_) => { proof {
+                        assert(!is_start_of(cur[0], nm) && !is_end_of(cur[0], nm));
+                        assert(self.read@ =~= r0.subrange(c + 1, r0.len() as int));
+                        c = c + 1;
+                    } continue },
+
+                // If we do not have skipped events, use effective reading that will
+                // not allocate memory for events
+                None => {
+                    // We should close all opened tags, because we could buffer
+                    // Start events, but not the corresponding End events. So we
+                    // keep reading events until we exit all nested tags.
+                    // `read_to_end()` will return an error if an Eof was encountered
+                    // preliminary (in case of malformed XML).
+                    //
+                    // <tag><tag></tag></tag>
+                    // ^^^^^^^^^^             - buffered in `self.read`, when `self.read_to_end()` is called, depth = 2
+                    //           ^^^^^^       - read by the first call of `self.reader.read_to_end()`
+                    //                 ^^^^^^ - read by the second call of `self.reader.read_to_end()`
+                    let ghost mut m: int = 0;
+                    proof {
+                        assert(c == r0.len());
+                        assert(p0.subrange(c, p0.len() as int) =~= f0);
+                        assert(f0.subrange(0, f0.len() as int) =~= f0);
+                    }
+                    loop
+                        invariant
+                            depth >= 0, 0 <= m <= f0.len(), c == r0.len(), self.qwf(), self.read@.len() == 0,
+                            self.reader.future@ == f0.subrange(m, f0.len() as int),
+                            self.held() == old(self).held(), self.limit == old(self).limit,
+                            close_idx(p0, nm, 0) == shift(close_idx(f0.subrange(m, f0.len() as int), nm, depth as nat), c + m),
+                        decreases depth
+                    {
+                        let ghost curf = self.reader.future@;
+                        proof { if depth > 0 { lemma_close_split(curf, nm, 0, (depth - 1) as nat); } else { lemma_close_split(curf, nm, 0, 0); } }
+                        self.reader.read_to_end(name)?;
+                        proof {
+                            let k = close_idx(curf, nm, 0)->Some_0;
+                            assert(curf.subrange(k + 1, curf.len() as int) =~= f0.subrange(m + k + 1, f0.len() as int));
+                            assert(self.pending() =~= p0.subrange(c + m + k + 1, p0.len() as int));
+                            m = m + k + 1;
+                        }
+                        if depth == 0 {
+                            break;
+                        }
+                        depth -= 1;
+                    }
+                    break;
+                }
+            }
+        }
+        Ok(())
     }
 //@end
 
